@@ -51,7 +51,9 @@ ATOMS = ["alpha", "beta", "GAMMA", "delta_4", "x", "y9", "Zed"]
 STRS = ['"two words"', '"1.0"', '"a, b"', '"tr\\"icky"', '"émigré ☃"', '"semi;colon"']
 # includes the values Python considers EQUAL across types (True == 1 == 1.0, False == 0 == 0.0 == -0.0): a value-keyed
 # cache or dict confuses them, and only a history that contained the other spelling first shows it
-NUMS = ["0", "1", "42", "-7", "3.5", "1e3", "1.0", "0.0", "-0.0", "1e0", "true", "false", "2", "2.0"]
+NUMS = ["0", "1", "42", "-7", "3.5", "1e3", "1.0", "0.0", "-0.0", "1e0", "true", "false", "2", "2.0",
+        # outside CPython's small-integer cache (-5..256): `is` stops working where `==` is meant
+        "256", "257", "-6", "1000", "123456789012345678901234567890"]
 
 
 def gen_doc(tape: Tape, marker: str, style: str = "canonical", size: int = 0) -> str:
